@@ -845,12 +845,12 @@ Definition interp_step (ev : expr -> machine -> outcome (value * machine)) (m : 
                        name is reported first); evaluate_all_indexes: every index is a one-element list literal;
                        get_var_from_env reads the variable AFTER them, so an index expression that rebinds x decides
                        which container is written.  The Rust code reads scopes[found].get(x).unwrap(): the model
-                       re-resolves the name instead -- the same scope, because an expression leaves every scope
-                       below its own calls with the names it had (modelling assumption, DESIGN.md D.5) *)
+                       re-resolves the name -- the same scope, because an expression leaves every scope with the names
+                       it had (Skeleton.v) -- and panics like the unwrap if it is gone (proved unreachable) *)
                     do '(path, m2) <- eval_indexes (ev) idx m1;
                     do p <- here m2;
                     match lookup_var x (m_scopes m2) with
-                    | None => rt_err m2
+                    | None => Panic SiteUnwrap
                     | Some container =>
                         do m3 <- assign_path m2 container path v p;
                         Ok (next m3)
